@@ -85,6 +85,19 @@ CHECKS = {
         '(stated in Dom.v, validated by correspondence).',
    tech='Coq invariant proof over a pointer-heap model, induction over operation lists + lock-step correspondence',
    ref='5/C08'),
+ 'C09': dict(
+   text='Proof (Coq): invariant Idx over the pointer-heap model of element.py/opendocument.py, preserved by removeChild, appendChild, '
+        'insertBefore, addElement, addText/addCDATA on any nodes (text nodes included) and hence by every history (induction): the '
+        'element index holds exactly the owned elements, each once; ownership is constant along parent links and means that the parent '
+        'chain ends at the document root; so getElementsByType = exactly the attached elements of the type, and elements of detached '
+        'subtrees never appear. getStyleByName only returns an attached, registered style of that name (always), and returns it whenever '
+        'there is one (along histories with unique registered names). The fuel-bounded subtree walk is proved complete by a pigeonhole '
+        'argument. Tied by lock-step correspondence of both dictionaries after every step and by a traversal oracle from doc.topnode, '
+        'renderers interleaved.',
+   note='Axioms: none. Element.getElementsByType (a plain recursive walk) is checked by the oracle only. Histories that make the document '
+        'root a child are excluded (op_keeps_top).',
+   tech='Coq invariant proof over a pointer-heap model, induction over operation lists + lock-step correspondence',
+   ref='5/C09'),
  'C10': dict(
    text='Proof (Coq): model of _scanoneelement/_parseoneelement/_used_auto_styles (the while loop with its measure: unselected styles). '
         'Every automatic style (any element of office:automatic-styles with a style:name) referenced from below a scanned segment through '
